@@ -398,7 +398,7 @@ func c06Real(c *Ctx, r *Rng, prop string) {
 			// error as long as the helper answers, an `ok` ends it; an authentication failure is not retried by the queue
 			oneRound := true // no object is sent back for another batch request
 			for _, sc := range tc.Scripts {
-				if len(sc) != 1 || (sc[0] != "ok" && sc[0] != "404" && sc[0] != "403") {
+				if len(sc) != 1 || sc[0] != "ok" { // any storage failure may send the object back for another batch request
 					oneRound = false
 				}
 			}
